@@ -156,8 +156,11 @@ func genHistory(r *gen.Rand, f gen.Flags) history {
 			indexed = pickIndexed(r, branches) // branch set may change: must fall back
 		}
 		thr := uint64(0)
-		if r.Chance(1, 5) && shardMax == 0 { // (with a small ShardMax the number of shards is not the model's)
+		if r.Chance(1, 5) {
 			thr = uint64(r.Range(1, 3))
+			if shardMax != 0 {
+				thr = uint64(r.Range(2, 8))
+			}
 		}
 		st.Index = &indexRec{Delta: delta, Thr: thr, Branches: append([]string{}, indexed...), ShardMax: shardMax, Repack: r.Chance(1, 5)}
 		h.Steps = append(h.Steps, st)
@@ -545,6 +548,12 @@ func (rn *runner) run(h history, id string) {
 			DeltaShardNumberFallbackThreshold: ix.Thr,
 		}
 		opts.BuildOptions.SetDefaults()
+		before := map[string]bool{}
+		if old, _ := filepath.Glob(filepath.Join(indexDir, "*.zoekt")); true {
+			for _, fn := range old {
+				before[fn] = true
+			}
+		}
 		t0 := time.Now()
 		_, prep, err := gitindex.VerifIndexGitRepo(opts)
 		tIndex += time.Since(t0)
@@ -603,16 +612,28 @@ func (rn *runner) run(h history, id string) {
 		for _, b := range ix.Branches {
 			bids = append(bids, rn.branches.ID(b))
 		}
-		ns, nshards := "", fmt.Sprint(len(shards))
-		if ix.ShardMax != 0 {
-			ns, nshards = " ns", "*"
+		// how the real run cut its documents into shards: document counts of the shards it wrote, all but the last
+		sort.Strings(shards)
+		var cuts []int
+		for _, fn := range shards {
+			if mode == "delta" && before[fn] {
+				continue
+			}
+			cuts = append(cuts, shardDocs(fn))
 		}
+		if len(cuts) > 0 {
+			cuts = cuts[:len(cuts)-1]
+		}
+		if len(cuts) > 0 {
+			rn.w.Count("multi-shard-run", 1)
+		}
+		nshards := fmt.Sprint(len(shards))
 		d := 0
 		if ix.Delta {
 			d = 1
 		}
 		emit(gen.Case{
-			In:    fmt.Sprintf("index %d %d %s%s", d, ix.Thr, gen.NatList(bids), ns),
+			In:    fmt.Sprintf("index %d %d %s %s", d, ix.Thr, gen.NatList(bids), gen.NatList(cuts)),
 			Impl:  fmt.Sprintf("%s files=%s changed=%s shards=%s", mode, joinOr(fstr, ","), gen.NatList(ch), nshards),
 			Class: fmt.Sprintf("run:%s(requested-delta=%v)", mode, ix.Delta), Nontrivial: mode == "delta" && len(files) > 0,
 		})
@@ -687,6 +708,28 @@ func (rn *runner) run(h history, id string) {
 }
 
 var tIndex, tOpen, tClose time.Duration
+
+// shardDocs counts the documents of one shard file
+func shardDocs(fn string) int {
+	f, err := os.Open(fn)
+	if err != nil {
+		panic(err)
+	}
+	inf, err := index.NewIndexFile(f)
+	if err != nil {
+		panic(err)
+	}
+	s, err := index.NewSearcher(inf)
+	if err != nil {
+		panic(err)
+	}
+	defer s.Close()
+	rl, err := s.List(context.Background(), &query.Const{Value: true}, nil)
+	if err != nil {
+		panic(err)
+	}
+	return rl.Stats.Documents
+}
 
 func contains(xs []string, s string) bool {
 	for _, x := range xs {
